@@ -1,4 +1,4 @@
-package main
+package c18
 
 // C18 — the env-file parser implements the dotenv grammar and never crashes.
 //
